@@ -247,6 +247,78 @@ def r11_7(ctx):
     ctx.floor(R, 'mixed-space sites met (the fast path of fill_rect is one)', nsite, 1)
 
 
+def r11_9(ctx):
+    """a box is mapped and digitised as a box.  (1) The image of an axis-aligned box under the transform is bounded by the
+    images of all four corners (`outer_transformed_box`); a method that maps only `b.min` and `b.max` through
+    transform_point and goes on using them as min and max has the bounding box for translations and positive scales
+    only.  (2) A float bound that becomes an integer pixel bound is rounded outwards — `floor` for a min, `ceil` for a
+    max, `round_out` for the box; an `as i32` cast truncates towards zero and `round()` goes to nearest, both of which
+    can cut a partly covered pixel row or column off (a cull or clip rectangle built that way drops visible pixels)."""
+    R = 'R11.9'
+    nfun = 0
+    for q in sorted(ctx.F.bodies):
+        if not q.startswith(DT) or '{closure' in q or '::' in q[len(DT):]:
+            continue
+        b = ctx.F.body(q)
+        if not b.argc or 'DrawTarget' not in b.local_ty(1):
+            continue
+        nfun += 1
+        an = ctx.an(b)
+        def corner(t):
+            t = strip_all(t)
+            if t[0] == 'field' and t[2] in ('min', 'max') and (t[3] or '').endswith('euclid::Box2D'):
+                return (nosite(strip_all(t[1])), t[2])
+            return None
+        mapped = {}
+        others = set()
+        casts = []
+        rounds = []
+        seen = set()
+        def scan(t0, bb):
+            for x in subterms(t0):
+                k = nosite(x)
+                if k in seen:
+                    continue
+                seen.add(k)
+                if x[0] == 'call' and isinstance(x[1], str) and x[1].endswith('::transform_point') and len(x[2]) == 2:
+                    c = corner(x[2][1])
+                    if c is not None:
+                        mapped.setdefault(c[0], {})[c[1]] = bb
+                    else:
+                        for y in subterms(x[2][1]):
+                            cy = corner(y)
+                            if cy is not None:
+                                others.add(cy[0])
+                if x[0] == 'cast' and x[1] == 'FloatToInt':
+                    inner = strip_all(x[3])
+                    if inner[0] == 'field' and inner[2] in ('x', 'y') and corner(inner[1]) is not None:
+                        casts.append((bb, inner, corner(inner[1])[1]))
+                if x[0] == 'call' and isinstance(x[1], str) and x[1].split('::')[-1] == 'round' and ('Box2D' in x[1] or 'Point2D' in x[1]) and x[2]:
+                    rounds.append((bb, x))
+        for d in an.defs:
+            if d.kind == 'assign' and not d.partial and d.bb in an.cfg.reach:
+                scan(an.def_term(d), d.bb)
+        for bi, dd, ct in calls_in(ctx, b):
+            scan(ct, bi)
+        for si, t in b.terminators('switch'):
+            if si in an.cfg.reach:
+                scan(an.term_at(si, len(b.blocks[si]['st']), t['o']), si)
+        two = [(bx, cs) for bx, cs in mapped.items() if set(cs) == {'min', 'max'} and bx not in others]
+        key = short(q)
+        if two:
+            bx, cs = two[0]
+            ctx.fail(R, key + '|box mapped by two corners', call_line(b, cs['min']), '%s maps only the min and the max corner of a box through self.transform and keeps using them as a box: under a rotation, a mirror or a shear the images of the two corners do not bound the image of the box (use outer_transformed_box / all four corners) — shapes that are partly visible are culled' % short(q))
+        elif casts:
+            bb, inner, which = casts[0]
+            ctx.fail(R, key + '|bound truncated', call_line(b, bb), '%s turns the float bound %s into an integer with `as i32`, which truncates towards zero: a %s bound must be rounded %s (floor/ceil or round_out), or the partly covered edge pixels fall outside the integer box' % (short(q), fmt(b, inner)[:60], which, 'down' if which == 'min' else 'up'))
+        elif rounds:
+            bb, x = rounds[0]
+            ctx.fail(R, key + '|bound rounded to nearest', call_line(b, bb), '%s rounds a float box/point to the nearest integers (%s): a bounding box must be rounded outwards (round_out), or edge pixels covered by less than half fall outside it' % (short(q), fmt(b, x)[:60]))
+        else:
+            ctx.ok(R, key + '|boxes mapped and digitised as boxes', b.loc(), None)
+    ctx.floor(R, 'DrawTarget methods scanned for box handling', nfun, 30)
+
+
 def r11_8(ctx):
     """a method that draws with its caller's Source draws it under its caller's transform: it never writes
     self.transform (pop_layer and clear, which do, draw sources of their own making)"""
@@ -283,4 +355,4 @@ _r04_5.__name__ = 'r04_5'
 
 def run(ctx):
     import props.c14 as c14
-    engine.run_rules(ctx, [ras.r08_1, r11_2, r11_3, r11_7, r11_8, c14.r14_1, _r04_5, dt.r11_6, dt.r06_5, r11_5, c13.r13_1, c13.r13_5, c12.r12_1, c12.r12_2, c12.r12_3, c20.r20_3, lambda c: c15.r15_3(c, c.body(c15.CS, 'R15.3'))])
+    engine.run_rules(ctx, [ras.r08_1, r11_2, r11_3, r11_7, r11_8, r11_9, c14.r14_1, _r04_5, dt.r11_6, dt.r06_5, r11_5, c13.r13_1, c13.r13_5, c12.r12_1, c12.r12_2, c12.r12_3, c20.r20_3, lambda c: c15.r15_3(c, c.body(c15.CS, 'R15.3'))])
